@@ -82,12 +82,17 @@ def arr_from(d):
     return None if d is None else np.array(d['data'], dtype=np.float64).reshape(d['shape'])
 
 
+EXTREME_WAVELETS = ['haar', 'db38', 'coif17', 'sym20', 'dmey', 'bior6.8', 'rbio3.9', 'bior1.1']    # shortest, longest, approximately PR, extremes of the biorthogonal families
+
+
 def named_wavelets(rng, k):
+    """k wavelet names: the extremes of the range first (always), then a random sample of the rest"""
     import pywt
     names = pywt.wavelist(kind='discrete')
     if k >= len(names):
         return names
-    return rng.sample(names, k)
+    ext = [n for n in EXTREME_WAVELETS if n in names][:max(0, k // 3)]
+    return ext + rng.sample([n for n in names if n not in ext], k - len(ext))
 
 
 def load_replay(path):
